@@ -25,6 +25,8 @@ class Throws:
         self._facts = {}
         self._direct = {}
         self._summary = {}
+        from .effects import Effects
+        self.effects = Effects(db)
 
     def ctx(self, fn):
         c = self._ctx.get(fn.mangled)
@@ -35,7 +37,7 @@ class Throws:
     def facts(self, fn):
         a = self._facts.get(fn.mangled)
         if a is None:
-            a = self._facts[fn.mangled] = guard_facts(fn, self.ctx(fn))
+            a = self._facts[fn.mangled] = guard_facts(fn, self.ctx(fn), effects=self.effects)
         return a
 
     def entry_alternatives(self, fn, pos):
